@@ -13,6 +13,7 @@ Search: real Output traces of source and result from reset compared with each ot
 import contextlib
 import hashlib
 import io
+import os
 import re
 import pyrtl
 import gen_designs
@@ -432,7 +433,8 @@ def attribute(api, src, src_trace, res_trace, ncyc):
         if cv is not None and cv != c.val:
             return 'const', 'Const %s is %d in the source and %d in the result' % (c.name, c.val, cv)
     for t in range(ncyc):
-        for n in src:
+        found = []
+        for n in src.logic:
             if n.op in 'r@' or not n.dests:
                 continue
             d = n.dests[0]
@@ -441,9 +443,12 @@ def attribute(api, src, src_trace, res_trace, ncyc):
                 continue
             avs = [res_value(api, res_trace, a, t) for a in n.args]
             if all(av is not None and av == src_trace[a.name][t] for av, a in zip(avs, n.args)):
-                return n.op, '%s: args %s -> %s, result block shows %s' % (
-                    str(n), [src_trace[a.name][t] for a in n.args], src_trace[d.name][t], dv)
-        for r in src.wirevector_subset(pyrtl.Register):
+                found.append((str(n), n.op, '%s: args %s -> %s, result block shows %s' % (
+                    str(n), [src_trace[a.name][t] for a in n.args], src_trace[d.name][t], dv)))
+        if found:       # all candidates of this cycle have correct arguments; report the least by text (stable)
+            _, op, where = min(found)
+            return op, where
+        for r in sorted(src.wirevector_subset(pyrtl.Register), key=lambda w: w.name):
             rv = res_value(api, res_trace, r, t)
             if rv is not None and rv != src_trace[r.name][t]:
                 return ('reset' if t == 0 else 'r'), 'register %s at cycle %d: %s vs %s' % (
@@ -659,20 +664,44 @@ def container_mutations(X, rng):
 
 # ---------------------------------------------------------------- one (design, api, scenario)
 
+def synth_cost(block):
+    """rough number of nets synthesize() will produce"""
+    c = 0
+    for n in block.logic:
+        ws = [w.bitwidth for w in n.args] or [1]
+        if n.op in '+-':
+            c += 2 * max(ws) ** 2
+        elif n.op == '*':
+            c += 24 * ws[0] * ws[-1]
+        elif n.op in '<>':
+            c += max(ws) ** 2 + 100
+        else:
+            c += 8 * max(ws + [w.bitwidth for w in n.dests])
+    return c
+
+
 def build(ctx, i):
     rng = ctx.sub_rng('design', i)
     mode = i % 3
     logs_only = i % 5 == 4        # memory profile: the design's only memories are write-only logs
-    if logs_only:
-        d = gen_designs.make_design(rng, wide_prob=0.05, max_width=16, allow_mem=False, allow_rom=False)
-    elif mode == 0:
-        d = gen_designs.make_design(rng, wide_prob=0.0, max_width=8)
-    elif mode == 1:
-        d = gen_designs.make_design(rng, wide_prob=0.1, max_width=33)
-    else:
-        ops = ['&', '|', '^', '~', 'nand', '+', '-', '<', '>', '==', '!=', '<=', '>=', 'mux', 'concat',
-               'slice', 'index', 'const', 'trunc', 'zext', 'sext', 'memrd', 'romrd', 'select']
-        d = gen_designs.make_design(rng, wide_prob=0.25, ops_subset=ops, n_ops=rng.randint(4, 12))
+    ALL = ['&', '|', '^', '~', 'nand', '+', '-', '*', '<', '>', '==', '!=', '<=', '>=', 'mux', 'concat',
+           'slice', 'index', 'const', 'trunc', 'zext', 'sext', 'memrd', 'romrd', 'select']
+    # cost control: the gate-level forms of + - * < > are quadratic in the width (a 128-bit adder synthesizes to ~27k
+    # nets, a 66x66 multiplier to ~130k) and one such design costs 10-60 s.  A design whose estimated synthesized
+    # size exceeds the budget is regenerated (same rng stream, so still a function of the seed) from a poorer op set.
+    for drop in ([], ['*'], ['*', '<', '>', '<=', '>='], ['*', '<', '>', '<=', '>=', '+', '-']):
+        ops = [o for o in ALL if o not in drop]
+        if logs_only:
+            d = gen_designs.make_design(rng, wide_prob=0.05, max_width=16, allow_mem=False, allow_rom=False, ops_subset=ops)
+        elif mode == 0:
+            d = gen_designs.make_design(rng, wide_prob=0.0, max_width=8, ops_subset=ops)
+        elif mode == 1:
+            d = gen_designs.make_design(rng, wide_prob=0.1, max_width=33, ops_subset=ops)
+        else:
+            d = gen_designs.make_design(rng, wide_prob=0.25, ops_subset=[o for o in ops if o != '*'],
+                                        n_ops=rng.randint(4, 12))
+        if synth_cost(d.block) <= 20000:
+            break
     ncyc = rng.randint(3, 6 if ctx.tier == 'quick' else 12)
     holes = add_padded_rom(rng, d) if rng.random() < 0.6 and not logs_only else None
     dup = add_same_named_memories(rng, d) if rng.random() < 0.5 and not logs_only else None
@@ -1103,7 +1132,11 @@ def edit_phase(ctx, i, api, scenario, d, res, memmap_by_id, inputs, rep_base):
                                    dict(rep_base, script=list(script_log), difference=fp_diff(fpY, fpY2)))
                 fpY = fpY2
         # in-place mutation of X's Block-level containers, then edit + simulate Y
-        for mi, (label, mutate, restore) in enumerate(container_mutations(X, rng)):
+        # cost control (does not change the designs): on very large blocks (wide multipliers after synthesize) every
+        # sanity_check / Simulation costs seconds, so only the first two containers are probed and without simulation
+        big = len(X.logic) + len(Y.logic) > 6000
+        for mi, (label, mutate, restore) in enumerate(container_mutations(X, rng)[:2] if big
+                                                      else container_mutations(X, rng)):
             mutate()
             try:
                 script_log.append('%s: %s' % (x_name, label))
@@ -1114,7 +1147,7 @@ def edit_phase(ctx, i, api, scenario, d, res, memmap_by_id, inputs, rep_base):
                                        'after %s, the in-place change %s of the %s changed the other block' % (api, label, x_name),
                                        dict(rep_base, script=list(script_log), difference=fp_diff(fpY, fpY2)))
                 try:
-                    probe_edit(Y, inputs, memmap_by_id, mems_of(src), with_sim=(mi == 0))
+                    probe_edit(Y, inputs, memmap_by_id, mems_of(src), with_sim=(mi == 0 and not big))
                 except (pyrtl.PyrtlError, pyrtl.PyrtlInternalError, KeyError, AttributeError, TypeError) as e:
                     ctx.spec_violation('shared-block-container:%s:%s' % (api, label.split('.')[0].split('[')[0]),
                                        'after %s and the in-place change %s of the %s, editing/simulating the OTHER block '
@@ -1171,87 +1204,97 @@ def run(ctx, only=None):
     memtie_exprs, memtie_meta = [], []
     for i in (range(ndesigns) if only is None else [only]):
         for ai, api in enumerate(APIS):
-            scenario = 'other-working-block' if (i + ai) % 4 == 3 else 'source-is-working-block'
-            d, memmap, memmap_by_id, inputs = build(ctx, i)
-            src = d.block
-            ncyc = len(inputs)
-            # pristine observations of the source
             try:
-                sim0, tr0 = simulate(src, inputs, memmap_by_id)
-            except pyrtl.PyrtlError as e:
-                ctx.spec_violation('api-built-design-rejected', 'Simulation rejected an API-built design: %s' % e,
-                                   {'seed': ctx.seed, 'design': i})
-                break
-            base = {'fp': fingerprint(src),
-                    'trace_all': {nm: list(v) for nm, v in tr0.trace.items()},
-                    'out_trace': out_trace(src, tr0, ncyc), 'mem_final': final_memories(src, sim0)}
-            variant = pick_variant(i, api, scenario)
-            ctx.count('call_variants', variant_str(api, variant))
-            if ai == 0:
-                dump = nlx.Dump(src, net_order=sim0.ordered_nets)
-                names = dump.names()
-                probes = [(mi_, a) for mi_, m_ in sorted(mems_of(src).items()) if not isinstance(m_, pyrtl.RomBlock)
-                          for a in range(1 << m_.addrwidth)]
-                spec_exprs.append('spec_case %s 0 [] %s %s %s' % (dump.coq(), dump.memmap(memmap), dump.inputs(inputs),
-                                                                  nlx.pairs(probes)))
-                spec_meta.append(dict(i=i, names=names, probes=probes,
-                                      mem=[sim0.memvalue.get(mi_, {}).get(a, 0) for mi_, a in probes], trace=[[tr0.trace[nm][t] for nm in names] for t in range(ncyc)],
-                                      nets=[str(n) for n in sorted(src.logic, key=str)][:60], inputs=inputs))
-                for o in d.ops:
-                    ctx.count('ops', o)
-                ctx.count('registers', len(d.regs))
-                ctx.count('registers_with_reset', sum(1 for r in d.regs if r.reset_value is not None))
-                ctx.count('memories', len(d.mems))
-                ctx.count('roms', len(d.roms))
-                ctx.count('cycles', ncyc)
-            src_canon = nlx.Dump(src, net_order=canon_nets(src)).coq() if api == 'copy_block' else None
-            info = check_one(ctx, i, api, scenario, src, memmap_by_id, inputs, base, variant=variant)
-            if info is None:
-                continue
-            res = info['res']
-            if api == 'copy_block':
+                scenario = 'other-working-block' if (i + ai) % 4 == 3 else 'source-is-working-block'
+                d, memmap, memmap_by_id, inputs = build(ctx, i)
+                src = d.block
+                ncyc = len(inputs)
+                # pristine observations of the source
                 try:
-                    cp_canon = nlx.Dump(res, net_order=canon_nets(res)).coq()
-                    tie_exprs.append('copy_tie_case %s %s' % (src_canon, cp_canon))
-                    tie_meta.append(dict(i=i, scenario=scenario, names=sorted(w.name for w in src.wirevector_set)))
-                    sm, rm = mems_of(src), mems_of(res)
-                    ids = sorted(k for k in sm if k in rm)
-                    if ids:
-                        memtie_exprs.append('mem_tie_case [%s]' % '; '.join(mattrs_coq(sm[k]) for k in ids))
-                        memtie_meta.append(dict(i=i, scenario=scenario, real=[mattrs_code(rm[k]) for k in ids],
-                                                names=[sm[k].name for k in ids]))
-                except Exception as e:
-                    ctx.model_mismatch('the result of copy_block could not be dumped: %r' % e, {'design': i})
-            # histories: a second non-updating call on the first result (copy of a copy, synthesize of a
-            # copy, optimize of a PostSynthBlock, copy of a PostSynthBlock ...)
-            if (i + ai) % 3 == 0 and info['res_trace'] is not None:
-                api2 = APIS[(ai + 1 + i // 3) % 3]
-                try:
-                    base2 = observe(res, inputs, memmap_by_id, src_mems=mems_of(src))
-                    check_one(ctx, i, api2, scenario, res, memmap_by_id, inputs, base2,
-                              chain=([api], mems_of(src)), bystanders=[('original source', src, fingerprint(src))])
-                    ctx.count('chains', '%s>%s' % (api, api2))
-                except (pyrtl.PyrtlError, pyrtl.PyrtlInternalError) as e:
-                    ctx.count('chain_not_observable', '%s>%s:%s' % (api, api2, type(e).__name__))
-                pyrtl.set_working_block(src, no_sanity_check=True)
-            rep_base = {'seed': ctx.seed, 'tier': ctx.tier, 'design': i, 'api': api, 'scenario': scenario,
-                        'nets': [str(n) for n in sorted(src.logic, key=str)][:60], 'inputs': inputs}
-            script = edit_phase(ctx, i, api, scenario, d, res, memmap_by_id, inputs, rep_base)
-            outs = base['out_trace']
-            varying = sum(1 for v in outs.values() if len(set(v)) > 1)
-            nontrivial = bool(d.regs or d.mems or d.roms) and 2 * varying >= len(outs)
-            ctx.case((base['fp']['nets'], api, scenario, tuple(script)), nontrivial=nontrivial,
-                     sample={'design': i, 'api': api, 'scenario': scenario,
-                             'source_fingerprint': fp_hash(base['fp']), 'registers': [wire_attrs(r) for r in d.regs],
-                             'edit_script': script[:6],
-                             'output_trace': dict(list(sorted(outs.items()))[:3])} if i < 2 else None)
-            ctx.count('api', api)
-            ctx.count('scenario', scenario)
+                    sim0, tr0 = simulate(src, inputs, memmap_by_id)
+                except pyrtl.PyrtlError as e:
+                    ctx.spec_violation('api-built-design-rejected', 'Simulation rejected an API-built design: %s' % e,
+                                       {'seed': ctx.seed, 'design': i})
+                    break
+                base = {'fp': fingerprint(src),
+                        'trace_all': {nm: list(v) for nm, v in tr0.trace.items()},
+                        'out_trace': out_trace(src, tr0, ncyc), 'mem_final': final_memories(src, sim0)}
+                variant = pick_variant(i, api, scenario)
+                ctx.count('call_variants', variant_str(api, variant))
+                if ai == 0:
+                    dump = nlx.Dump(src, net_order=sim0.ordered_nets)
+                    names = dump.names()
+                    probes = [(mi_, a) for mi_, m_ in sorted(mems_of(src).items()) if not isinstance(m_, pyrtl.RomBlock)
+                              for a in range(1 << m_.addrwidth)]
+                    spec_exprs.append('spec_case %s 0 [] %s %s %s' % (dump.coq(), dump.memmap(memmap), dump.inputs(inputs),
+                                                                      nlx.pairs(probes)))
+                    spec_meta.append(dict(i=i, names=names, probes=probes,
+                                          mem=[sim0.memvalue.get(mi_, {}).get(a, 0) for mi_, a in probes], trace=[[tr0.trace[nm][t] for nm in names] for t in range(ncyc)],
+                                          nets=[str(n) for n in sorted(src.logic, key=str)][:60], inputs=inputs))
+                    for o in d.ops:
+                        ctx.count('ops', o)
+                    ctx.count('registers', len(d.regs))
+                    ctx.count('registers_with_reset', sum(1 for r in d.regs if r.reset_value is not None))
+                    ctx.count('memories', len(d.mems))
+                    ctx.count('roms', len(d.roms))
+                    ctx.count('cycles', ncyc)
+                src_canon = nlx.Dump(src, net_order=canon_nets(src)).coq() if api == 'copy_block' else None
+                info = check_one(ctx, i, api, scenario, src, memmap_by_id, inputs, base, variant=variant)
+                if info is None:
+                    continue
+                res = info['res']
+                if api == 'copy_block':
+                    try:
+                        cp_canon = nlx.Dump(res, net_order=canon_nets(res)).coq()
+                        tie_exprs.append('copy_tie_case %s %s' % (src_canon, cp_canon))
+                        tie_meta.append(dict(i=i, scenario=scenario, names=sorted(w.name for w in src.wirevector_set)))
+                        sm, rm = mems_of(src), mems_of(res)
+                        ids = sorted(k for k in sm if k in rm)
+                        if ids:
+                            memtie_exprs.append('mem_tie_case [%s]' % '; '.join(mattrs_coq(sm[k]) for k in ids))
+                            memtie_meta.append(dict(i=i, scenario=scenario, real=[mattrs_code(rm[k]) for k in ids],
+                                                    names=[sm[k].name for k in ids]))
+                    except Exception as e:
+                        ctx.model_mismatch('the result of copy_block could not be dumped: %r' % e, {'design': i})
+                # histories: a second non-updating call on the first result (copy of a copy, synthesize of a
+                # copy, optimize of a PostSynthBlock, copy of a PostSynthBlock ...)
+                if (i + ai) % 3 == 0 and info['res_trace'] is not None:
+                    api2 = APIS[(ai + 1 + i // 3) % 3]
+                    try:
+                        base2 = observe(res, inputs, memmap_by_id, src_mems=mems_of(src))
+                        check_one(ctx, i, api2, scenario, res, memmap_by_id, inputs, base2,
+                                  chain=([api], mems_of(src)), bystanders=[('original source', src, fingerprint(src))])
+                        ctx.count('chains', '%s>%s' % (api, api2))
+                    except (pyrtl.PyrtlError, pyrtl.PyrtlInternalError) as e:
+                        ctx.count('chain_not_observable', '%s>%s:%s' % (api, api2, type(e).__name__))
+                    pyrtl.set_working_block(src, no_sanity_check=True)
+                rep_base = {'seed': ctx.seed, 'tier': ctx.tier, 'design': i, 'api': api, 'scenario': scenario,
+                            'nets': [str(n) for n in sorted(src.logic, key=str)][:60], 'inputs': inputs}
+                script = edit_phase(ctx, i, api, scenario, d, res, memmap_by_id, inputs, rep_base)
+                outs = base['out_trace']
+                varying = sum(1 for v in outs.values() if len(set(v)) > 1)
+                nontrivial = bool(d.regs or d.mems or d.roms) and 2 * varying >= len(outs)
+                ctx.case((base['fp']['nets'], api, scenario, tuple(script)), nontrivial=nontrivial,
+                         sample={'design': i, 'api': api, 'scenario': scenario,
+                                 'source_fingerprint': fp_hash(base['fp']), 'registers': [wire_attrs(r) for r in d.regs],
+                                 'edit_script': script[:6],
+                                 'output_trace': dict(list(sorted(outs.items()))[:3])} if i < 2 else None)
+                ctx.count('api', api)
+                ctx.count('scenario', scenario)
+            except Exception:   # one broken case must not hide the others; it is still reported
+                import traceback
+                ctx.model_mismatch('harness exception in design %d / %s: %s' % (i, api, traceback.format_exc()[-700:]),
+                                   {'seed': ctx.seed, 'tier': ctx.tier, 'design': i, 'api': api})
+                pyrtl.reset_working_block()
     pyrtl.reset_working_block()
 
     # ---- search anchor: the real source trace vs the Coq reference semantics of the source dump
     shard = 15 if ctx.tier == 'quick' else 40
-    spec_results = ctx.coq_eval(spec_exprs, IMPORTS, tag='c11spec', shard=shard, jobs=12)
+    try:
+        spec_results = ctx.coq_eval(spec_exprs, IMPORTS, tag='c11spec_%d' % os.getpid(), shard=shard, jobs=12)
+    except Exception as e:
+        spec_results = []
+        ctx.model_mismatch('the reference semantics could not be evaluated on the source dumps: %s' % str(e)[-600:], {})
     for m, r in zip(spec_meta, spec_results):
         if r[0][0] != 1:
             ctx.model_mismatch('wfb is false on an API-built design (premise of C11_wellformed_has_arity)', {'design': m['i']})
@@ -1273,7 +1316,7 @@ def run(ctx, only=None):
 
     # ---- structural tie for copy_block
     try:
-        tie_results = ctx.coq_eval(tie_exprs, IMPORTS, tag='c11tie', shard=shard, jobs=12)
+        tie_results = ctx.coq_eval(tie_exprs, IMPORTS, tag='c11tie_%d' % os.getpid(), shard=shard, jobs=12)
     except Exception as e:
         tie_results = []
         ctx.model_mismatch('Pass/Copy.v could not be evaluated: %s' % str(e)[-600:], {})
@@ -1306,7 +1349,7 @@ def run(ctx, only=None):
 
     # ---- attribute-level tie for memories: generated _make_copy / _get_new_block_mem_instance vs the real copies
     try:
-        memtie_results = ctx.coq_eval(memtie_exprs, IMPORTS, tag='c11memtie', shard=40, jobs=8) if memtie_exprs else []
+        memtie_results = ctx.coq_eval(memtie_exprs, IMPORTS, tag='c11memtie_%d' % os.getpid(), shard=40, jobs=8) if memtie_exprs else []
     except Exception as e:
         memtie_results = []
         ctx.model_mismatch('Gen/CopyAttrs.v mem_tie_case could not be evaluated: %s' % str(e)[-600:], {})
